@@ -1,16 +1,27 @@
 """C17 - tokenizer: tokens tile the source and carry exact positions.
 
-1. TLC model-checks SyltLex itself (generator mode) over all texts of length <= 3: the lexer spec is
-   self-consistent (tiling, maximal munch, sane positions, deterministic up to error extents).
-2. The harness runs the real tokenizer over index-addressed universes; TLC (Trace_Lex) re-derives each
-   text from its index and validates every recorded token list against SyltLex's actions with the spec
-   invariants evaluated in every state. REJECT lines are the verdicts.
-3. Negative control: a stub tokenizer that never counts lines must be rejected.
+1. TLC model-checks SyltLex itself (generator mode) over all texts of length <= 3 over the round-1 characters plus one
+   stand-in per class of characters outside the token alphabet: the lexer spec is self-consistent (tiling, maximal
+   munch, sane positions, deterministic up to error extents, foreign characters confined to strings/comments/errors).
+2. The harness runs the real tokenizer over index-addressed universes; TLC (Trace_Lex) re-derives each text from its
+   index and validates every recorded token list against SyltLex's actions with the spec invariants evaluated in
+   every state. REJECT lines are the verdicts. Universes: strings / fragments / random longer texts (round 1);
+   ustrings, uctx (every class of non-token characters next to everything), numgram, numctx (number grammar),
+   files (how files begin and end), long (very long lines, very many lines) (round 2).
+3. Negative controls: a stub tokenizer that never counts lines, and one that swallows a byte-order mark, must be rejected.
+
+The traces are cut into shards and several TLC processes run side by side (one TLC does not scale beyond ~4 workers
+on this workload).
 """
+import concurrent.futures
+import json
 import os
 import vlib
 
 PID = "C17"
+SHARD = 28000          # records per TLC process
+PAR = 4                # TLC processes side by side
+WORKERS = 4            # workers per TLC process
 
 
 def signature(rec, rej):
@@ -19,6 +30,10 @@ def signature(rec, rej):
     toks = rec["toks"]
     j = rej["tok"] - 1
     why = rej["why"]
+    if why.startswith("prefix-"):
+        c = rec.get("count", 0)
+        bucket = "le255" if c <= 255 else "le4095" if c <= 4095 else "le65535" if c <= 65535 else "gt65535"
+        return "C17|long-text|%s|%s|%s" % (why, "lines" if "\n" in rec.get("unit", "") else "columns", bucket)
     # a multi-line token (a token whose source text contains a newline but is not the newline token)
     # at or before the rejected token?
     pos = rej["pos"]
@@ -34,117 +49,320 @@ def signature(rec, rej):
     cur_multiline = any(e.get("lend", 0) != e.get("line", 0) for e in exp) if isinstance(exp, list) else False
     if why == "token-mismatch" and j < len(toks):
         got = toks[j]
-        if exp and isinstance(exp, list) and len(exp) == 1:
-            e = exp[0]
+        one = exp[0] if exp and isinstance(exp, list) and len(exp) == 1 else None
+        if rej.get("numlike") and got["k"] == "err":
+            # the recorded error token would be an int/float if its non-ASCII decimal digits were ASCII digits
+            return "C17|uni-digit-read-as-digit-of-number|spec=%s" % (one["k"] if one else "err")
+        if one and one["k"] == "float" and got["k"] == "err" and one["txt"].endswith(".") \
+                and all(got[f] == one[f] for f in ("line", "cs", "lend", "ce")):
+            raw = rec.get("raw", text)
+            nxt = raw[pos - 1 + one["n"]:pos + one["n"]]
+            if nxt and ord(nxt) > 0x7f:
+                return "C17|float-ending-in-dot-before-multibyte-char-is-error"
+        if one:
+            e = one
             if got["k"] == e["k"] and (got["line"], got["cs"]) == (e["line"], e["cs"]) and cur_multiline:
                 return "C17|span-end-of-multiline-token|%s" % e["k"]
             if got["k"] == e["k"] and multiline_before:
                 return "C17|position-after-multiline-token"
             if got["k"] != e["k"]:
                 return "C17|kind|spec=%s|impl=%s" % (e["k"], got["k"])
+            if (got["line"], got["cs"], got["lend"]) == (e["line"], e["cs"], e["lend"]) and got["ce"] != e["ce"]:
+                return "C17|extent|%s|%s|next=%s" % (e["k"], "longer" if got["ce"] > e["ce"] else "shorter", rej.get("next", "?"))
             return "C17|position|%s" % e["k"]
         if got["k"] == "err" and "\n" in text[pos - 1:pos - 1 + max(got["ce"] - got["cs"], 0)][:-1]:
             return "C17|span-end-of-multiline-token|err"
         if multiline_before:
             return "C17|position-after-multiline-token"
-        return "C17|error-token-mismatch|impl=%s" % got["k"]
+        return "C17|error-token-mismatch|at=%s|impl=%s" % (rej.get("at", "?"), got["k"])
     return "C17|%s" % why
 
 
-def validate(wd, name, trace, universe, ev, verdicts, workers=None, timeout=14400):
-    recs = vlib.read_ndjson(trace)
-    r = vlib.tlc("MC_TraceLex", cfg="MC_TraceLex.cfg", wd=wd, env={"TRACE": trace, "UNIVERSE": universe},
-                 tags=("REJECT",), workers=workers, timeout=timeout, out_file=os.path.join(wd, "tlc-" + name + ".out"))
-    vlib.require_tlc_ok(r, "Trace_Lex/" + name)
-    rejects = list({(p["rec"], p["tok"]): p for (_, p) in r.records}.values())  # ENABLED re-evaluates PrintT
+class Job:
+    """One trace to validate (cut into shards)."""
+
+    def __init__(self, name, trace, universe, env=None, control=False, weight=1.0):
+        self.name, self.trace, self.universe, self.env, self.control, self.weight = name, trace, universe, env or {}, control, weight
+        self.recs = vlib.read_ndjson(trace)
+        self.shards = []    # (offset, path, n)
+        self.results = {}   # offset -> TlcResult
+
+
+def make_shards(wd, job, shard=SHARD):
+    if len(job.recs) <= shard:
+        job.shards = [(0, job.trace, len(job.recs))]
+        return
+    with open(job.trace) as f:
+        lines = [l for l in f if l.strip()]
+    for off in range(0, len(lines), shard):
+        path = "%s.%d" % (job.trace, off)
+        with open(path, "w") as g:
+            g.writelines(lines[off:off + shard])
+        job.shards.append((off, path, len(lines[off:off + shard])))
+
+
+def run_jobs(wd, jobs, extra=None):
+    """Run every shard of every job (and the extra callables) on a pool of TLC processes."""
+    tasks = []
+    for job in jobs:
+        make_shards(wd, job)
+        for i, (off, path, n) in enumerate(job.shards):
+            tasks.append((n * job.weight, job, off, path, i))
+    tasks.sort(key=lambda t: -t[0])
+
+    def one(job, off, path, i):
+        swd = os.path.join(wd, "tlc", "%s-%d" % (job.name.replace("/", "_"), off))
+        os.makedirs(swd, exist_ok=True)
+        env = {"TRACE": path, "UNIVERSE": job.universe, "OFFSET": off}
+        env.update(job.env)
+        # coverage (action counts) on the first shard of every trace; every shard has the state-count guard below
+        return vlib.tlc("MC_TraceLex", cfg="MC_TraceLex.cfg", wd=swd, env=env, tags=("REJECT",), workers=WORKERS,
+                        timeout=14400, xmx="4g", coverage=(i == 0),
+                        out_file=os.path.join(wd, "tlc-%s-%d.out" % (job.name.replace("/", "_"), off)))
+
+    with concurrent.futures.ThreadPoolExecutor(max_workers=PAR) as ex:
+        futs = {}
+        for fn in (extra or []):
+            futs[ex.submit(fn)] = ("extra", fn)
+        for (_, job, off, path, i) in tasks:
+            futs[ex.submit(one, job, off, path, i)] = (job, off)
+        out_extra = {}
+        for fut in concurrent.futures.as_completed(futs):
+            tag = futs[fut]
+            res = fut.result()      # exceptions of the worker threads surface here (main thread)
+            if tag[0] == "extra":
+                out_extra[tag[1]] = res
+            else:
+                tag[0].results[tag[1]] = res
+    return out_extra
+
+
+def collect(job, ev, verdicts):
+    """Main thread: turn the TLC results of one trace into verdicts and evidence."""
+    rejects = []
+    states = trans = 0
+    actions = {}
+    wall = 0.0
+    for i, (off, path, n) in enumerate(job.shards):
+        r = job.results[off]
+        vlib.require_tlc_ok(r, "Trace_Lex/%s@%d" % (job.name, off))
+        rj = list({(p["rec"], p["tok"]): p for (_, p) in r.records}.values())  # ENABLED re-evaluates PrintT
+        rejected = {p["rec"] for p in rj}
+        # vacuity: every record is an initial state and ends in accept or reject (TraceTotal forbids silent stops);
+        # an accepted record has taken one TraceEmit per recorded token (prefix tokens of long texts excepted)
+        shard_recs = job.recs[off:off + n]
+        need = n + sum(1 + (len(rc["toks"]) if "first" not in rc else 1)
+                       for q, rc in enumerate(shard_recs, 1) if q not in rejected) + len(rejected)
+        if r.distinct < need:
+            vlib.tool_error("vacuity: %s@%d: %d states for %d records, at least %d expected" % (job.name, off, r.distinct, n, need))
+        if i == 0:
+            actions = {k: v[1] for k, v in r.coverage.items() if k.startswith("Trace")}
+            need_acts = ["TraceEmit", "TraceAccept"] + {"long": ["TracePrefix"], "numgram": []}.get(job.universe, ["TraceSkip"])
+            for act in need_acts:
+                if r.coverage.get(act, (0, 0))[1] == 0:
+                    vlib.tool_error("vacuity: trace action %s never taken in %s" % (act, job.name))
+        for p in rj:
+            p = dict(p, rec=p["rec"] + off)
+            rejects.append(p)
+        states += r.distinct
+        trans += r.generated
+        wall += r.wall_s
     for rej in rejects:
-        rec = recs[rej["rec"] - 1]
+        rec = job.recs[rej["rec"] - 1]
         sig = signature(rec, rej)
-        verdicts.add(sig, "tokenizer trace rejected (%s) at token %d of %r" % (rej["why"], rej["tok"], rec["input"]),
-                     {"universe": universe, "input": rec["input"], "raw": rec.get("raw", rec["input"]), "recorded": rec["toks"], "reject": rej})
-    ev.add("states", r.distinct)
-    ev.add("transitions", r.generated)
-    ev.add("traces_validated_against_impl", len(recs))
-    ev.add("evaluations", len(recs))
-    ev.cov.setdefault("universes", {})[name] = {
-        "records": len(recs), "rejected": len(rejects), "tlc_states": r.distinct,
-        "tlc_wall_s": round(r.wall_s, 1),
-        "actions": {k: v[1] for k, v in r.coverage.items() if k.startswith("Trace")}}
-    for act in ("TraceSkip", "TraceEmit", "TraceAccept"):
-        if r.coverage.get(act, (0, 0))[1] == 0:
-            vlib.tool_error("vacuity: trace action %s never taken in %s" % (act, name))
-    return recs, rejects
+        replay = {"universe": job.universe, "input": rec["input"][:400], "raw": rec.get("raw", rec["input"])[:400],
+                  "recorded": rec["toks"], "reject": rej}
+        if "idx" in rec:
+            replay["idx"] = rec["idx"]
+        verdicts.add(sig, "tokenizer trace rejected (%s) at token %d of %r" % (rej["why"], rej["tok"], rec["input"][:120]), replay)
+    ev.add("states", states)
+    ev.add("transitions", trans)
+    ev.add("traces_validated_against_impl", len(job.recs))
+    ev.add("evaluations", len(job.recs))
+    ev.cov.setdefault("universes", {})[job.name] = {
+        "records": len(job.recs), "rejected": len(rejects), "tlc_states": states, "shards": len(job.shards),
+        "tlc_cpu_wall_s": round(wall, 1), "actions_first_shard": actions}
+    return rejects
+
+
+CLASS_OF = {"@": "uni-letter", "%": "uni-digit", "^": "uni-number", "~": "other-space", "`": "uni-mark",
+            "&": "uni-connector", ";": "uni-format", "$": "other-char"}
+
+
+def _cat(ch):
+    if ch in CLASS_OF:
+        return "nontoken"
+    if ch.isalpha() or ch == "_":
+        return "idchar"
+    if ch.isdigit():
+        return "digit"
+    return {'"': "quote", "\n": "newline", " ": "blank", "\t": "blank", "\r": "blank"}.get(ch, "symbol")
+
+
+NEIGHBOURS = {"idchar", "digit", "quote", "newline", "blank", "symbol", "nontoken"}
+
+
+def neighbour_coverage(jobs):
+    """Measured from the texts (not a verdict): for every class of non-token characters, which kinds of characters
+    stood directly before / after a character of the class, and whether it occurred inside a string literal, inside a
+    comment, first and last in a text."""
+    cov = {c: {"prev": set(), "next": set(), "in_string": 0, "in_comment": 0, "records": 0} for c in CLASS_OF.values()}
+    for job in jobs:
+        for rec in job.recs:
+            text = rec["input"]
+            if "first" in rec or not any(ch in CLASS_OF for ch in text):
+                continue
+            in_str = in_com = False
+            seen = set()
+            for q, ch in enumerate(text):
+                if in_com and ch == "\n":
+                    in_com = False
+                elif not in_com and ch == '"':
+                    in_str = not in_str
+                elif not in_str and not in_com and text[q:q + 2] == "//":
+                    in_com = True
+                cls = CLASS_OF.get(ch)
+                if not cls:
+                    continue
+                c = cov[cls]
+                seen.add(cls)
+                c["prev"].add(_cat(text[q - 1]) if q else "start")
+                c["next"].add(_cat(text[q + 1]) if q + 1 < len(text) else "end")
+                c["in_string"] += in_str
+                c["in_comment"] += in_com
+            for cls in seen:
+                cov[cls]["records"] += 1
+    return {c: {k: (sorted(v) if isinstance(v, set) else v) for k, v in d.items()} for c, d in cov.items()}
 
 
 def run(ctx):
     tier = ctx.tier
+    quick = tier == "quick"
     wd = vlib.workdir(PID)
     ev = vlib.Evidence(PID, tier, "model_checking")
     verdicts = vlib.Verdicts(PID)
     vlib.build_harness()
 
     if ctx.replay:
-        import json
         rp = json.load(open(ctx.replay))["replay"]
-        tf = os.path.join(wd, "one.txt")
-        open(tf, "w").write(rp.get("raw", rp["input"]))
-        p = vlib.harness("c17", ["one", tf])
         trace = os.path.join(wd, "one.ndjson")
-        open(trace, "w").write(p.stdout)
-        validate(wd, "replay", trace, "free", ev, verdicts, workers=1)
+        if rp.get("universe") == "long":
+            p = vlib.harness("c17", ["long-one", rp["idx"]])
+            open(trace, "w").write(p.stdout)
+            job = Job("replay", trace, "long")
+        else:
+            tf = os.path.join(wd, "one.txt")
+            open(tf, "w").write(rp.get("raw", rp["input"]))
+            p = vlib.harness("c17", ["one", tf])
+            open(trace, "w").write(p.stdout)
+            job = Job("replay", trace, "free")
+        run_jobs(wd, [job])
+        collect(job, ev, verdicts)
         ev.set(samples=[rp["input"]])
         ev.write()
         return verdicts.finish()
 
-    # 1. the specification on its own
-    r = vlib.tlc("MC_Lex", wd=wd, timeout=900)
+    def rec(mode, args, name, env=None):
+        path = os.path.join(wd, name + ".ndjson")
+        p = vlib.harness("c17", [mode] + list(args) + [path], env=env)
+        return path, p.stdout.split()
+
+    # ---- record (fast) -------------------------------------------------------------------------------------
+    jobs = []
+    maxlen = 4 if quick else 5
+    t, _ = rec("strings", [maxlen], "strings")
+    jobs.append(Job("strings<=%d" % maxlen, t, "strings"))
+    t, _ = rec("frags", [2, 3000 if quick else 150000], "frags")
+    jobs.append(Job("fragments", t, "frags"))
+    t, _ = rec("free", [400 if quick else 6000], "free")
+    jobs.append(Job("random-longer", t, "free", weight=3))
+
+    u_exh = 3
+    t, o = rec("ustrings", [u_exh, 4000 if quick else 120000], "ustrings")
+    jobs.append(Job("class-strings<=%d+samples" % u_exh, t, "ustrings", {"EXHLEN": u_exh, "EXPECT_EXH": o[1]}))
+    t, o = rec("uctx", [], "uctx")
+    jobs.append(Job("class-contexts", t, "uctx", {"EXHLEN": 1, "EXPECT_EXH": o[1]}))
+    n_exh = 5 if quick else 6
+    t, o = rec("numgram", [n_exh, 4000 if quick else 0], "numgram")
+    jobs.append(Job("number-grammar<=%d" % n_exh, t, "numgram", {"EXHLEN": n_exh, "EXPECT_EXH": o[1]}))
+    c_exh = -1 if quick else 3
+    t, o = rec("numctx", [c_exh, 6000 if quick else 80000], "numctx")
+    jobs.append(Job("number-grammar-in-context", t, "numctx", {"EXHLEN": c_exh, "EXPECT_EXH": o[1]}))
+    t, o = rec("files", [], "files")
+    jobs.append(Job("file-corners", t, "files", {"EXHLEN": 1, "EXPECT_EXH": o[1]}))
+    t, o = rec("long", [10 if quick else 120, 140000 if quick else 270000], "long")
+    jobs.append(Job("long-texts", t, "long", weight=4000))
+    for job in jobs:
+        if "EXPECT_EXH" in job.env and len(job.recs) < int(job.env["EXPECT_EXH"]):
+            vlib.tool_error("%s: %d records, %s exhaustive ones announced" % (job.name, len(job.recs), job.env["EXPECT_EXH"]))
+
+    # negative controls: binding demonstration
+    t, _ = rec("free", [300], "neg-line1", env={"C17_STUB": "line1"})
+    neg1 = Job("negative-control-lines", t, "free", control=True, weight=3)
+    t, o = rec("files", [], "neg-bom", env={"C17_STUB": "bom"})
+    neg2 = Job("negative-control-bom", t, "files", {"EXHLEN": 1, "EXPECT_EXH": o[1]}, control=True)
+
+    # ---- TLC: the specification on its own, and all traces, side by side -------------------------------------
+    def spec_model():
+        swd = os.path.join(wd, "tlc", "spec")
+        os.makedirs(swd, exist_ok=True)
+        return vlib.tlc("MC_Lex", wd=swd, timeout=1800, workers=WORKERS, xmx="4g", out_file=os.path.join(wd, "tlc-MC_Lex.out"))
+
+    extra = run_jobs(wd, jobs + [neg1, neg2], extra=[spec_model])
+    r = extra[spec_model]
     vlib.require_tlc_ok(r, "SyltLex generator model")
     for act in ("SkipBlank", "EmitLongest", "EmitError"):
         if r.coverage.get(act, (0, 0))[1] == 0:
             vlib.tool_error("vacuity: spec action %s never taken" % act)
     ev.set(spec_model={"states": r.distinct, "texts": r.coverage.get("Init", (0, 0))[0],
                        "actions": {k: v[1] for k, v in r.coverage.items()},
-                       "invariants": ["Tiling", "Maximal", "PositionsSane", "Exclusive", "NoStuck", "PosInRange"]})
+                       "invariants": ["Tiling", "Maximal", "PositionsSane", "Exclusive", "NoStuck", "PosInRange", "NonTokenConfined"],
+                       "assumptions_checked": ["NonTokenSound", "ClassesDisjoint"]})
     ev.add("states", r.distinct)
     ev.add("transitions", r.generated)
 
-    # 2. conformance
-    maxlen = 4 if tier == "quick" else 5
-    t_strings = os.path.join(wd, "strings.ndjson")
-    vlib.harness("c17", ["strings", maxlen, t_strings])
-    recs, _ = validate(wd, "strings<=%d" % maxlen, t_strings, "strings", ev, verdicts)
-    samples = [recs[i]["input"] for i in (len(recs) // 3, len(recs) // 2, len(recs) - 7)]
+    samples = []
+    for job in jobs:
+        collect(job, ev, verdicts)
+        n = len(job.recs)
+        samples += [job.recs[i].get("raw", job.recs[i]["input"])[:80] for i in (n // 3, n // 2, max(n - 7, 0))]
 
-    t_frags = os.path.join(wd, "frags.ndjson")
-    nsamp = 3000 if tier == "quick" else 150000
-    vlib.harness("c17", ["frags", 2, nsamp, t_frags])
-    recs, _ = validate(wd, "fragments", t_frags, "frags", ev, verdicts)
-    samples += [recs[i]["input"] for i in (200, len(recs) // 2, len(recs) - 5)]
+    # measured coverage of the character classes, with a guard: every class met every neighbour kind
+    ncov = neighbour_coverage(jobs)
+    for cls, d in ncov.items():
+        if not (NEIGHBOURS | {"start"} <= set(d["prev"]) and NEIGHBOURS | {"end"} <= set(d["next"])
+                and d["in_string"] and d["in_comment"]):
+            vlib.tool_error("vacuity: characters of class %s did not meet every kind of neighbour: %r" % (cls, d))
+    ev.set(class_neighbours=ncov)
 
-    t_free = os.path.join(wd, "free.ndjson")
-    vlib.harness("c17", ["free", 400 if tier == "quick" else 6000, t_free])
-    recs, _ = validate(wd, "random-longer", t_free, "free", ev, verdicts)
-    samples += [recs[0]["input"], recs[1]["input"]]
-
-    # 3. negative control: binding demonstration
-    t_neg = os.path.join(wd, "neg.ndjson")
-    vlib.harness("c17", ["free", 300, t_neg], env={"C17_STUB": "line1"})
-    neg_v = vlib.Verdicts(PID, control=True)
-    neg_v.known = []
-    neg_ev = vlib.Evidence(PID, tier, "model_checking")
-    _, neg_rej = validate(wd, "negative-control", t_neg, "free", neg_ev, neg_v)
-    if not neg_rej:
+    # negative controls must be rejected
+    nrej = {}
+    for neg in (neg1, neg2):
+        neg_v = vlib.Verdicts(PID, control=True)
+        neg_v.known = []
+        neg_ev = vlib.Evidence(PID, tier, "model_checking")
+        rj = collect(neg, neg_ev, neg_v)
+        nrej[neg.name] = len(rj)
+    if not nrej[neg1.name]:
         vlib.tool_error("negative control accepted: a tokenizer that never counts lines was not rejected")
-    ev.set(negative_controls_rejected=len(neg_rej))
+    if not nrej[neg2.name]:
+        vlib.tool_error("negative control accepted: a tokenizer that drops a leading byte-order mark was not rejected")
+    ev.set(negative_controls_rejected=sum(nrej.values()), negative_controls=nrej)
 
     ev.set(samples=samples, exhaustive=True,
-           rule="every text of the index-addressed universes (all strings of length<=%d over an 18-character "
-                "alphabet; all 1- and 2-fragment concatenations and sampled 3-fragment ones from a 105-fragment pool; "
-                "seeded random longer texts); a case is non-trivial when it yields >=1 token" % maxlen,
-           distinct_nontrivial=ev.cov.get("evaluations", 0),
+           rule="every text of the index-addressed universes (all strings of length<=%d over an 18-character alphabet; all 1- and "
+                "2-fragment concatenations and sampled 3-fragment ones from a 126-fragment pool; seeded random longer texts; all "
+                "strings of length<=%d over 9 token characters + 15 representatives of the 8 classes of non-token characters and "
+                "sampled ones of length 4; context x 25 representatives x context; all strings of length<=%d over {1 . e E + - a _} "
+                "and sampled longer / embedded ones; head x body x tail file corners; sampled unit^count+window texts with "
+                "counts 255..65537); a case is non-trivial when it yields >=1 token" % (maxlen, u_exh, n_exh),
+           distinct_nontrivial=sum(1 for job in jobs for rc in job.recs if rc["toks"]),
            known_findings_hit=verdicts.known_hits)
     ev.assume("TLC and the SyltLex module are the reference; error-token extents are unconstrained by the property",
-              "characters outside the Basic Multilingual Plane are not in the universes (TLC strings are UTF-16)")
+              "characters outside the token alphabet reach TLC as one ASCII stand-in per Unicode class; the class table of the "
+              "recorder (general categories of the representatives, cross-checked against std's predicates) is trusted",
+              "texts of the long universe: the periodic prefix is validated by token count and sampled tokens (positions still "
+              "derived from the whole text), only the window token by token")
     rc = verdicts.finish()
     ev.violations = len(verdicts.violations)
     ev.write()
